@@ -271,7 +271,12 @@ pub fn faultrun(args: &Args) -> i32 {
                     inst.tree = None;
                     let _ = hooks::drain_installs();
                     match dump_copy(&c.cfg, &dir) {
-                        Err(e) => violation = Some(tag("closed-tree-unopenable", format!("the tree was closed right after the failed call and reopened: {e}"))),
+                        Err(e) => {
+                            // a file the durable version names went away with the last handle: "nothing live is ever deleted"
+                            let mut v = tag("closed-tree-unopenable", format!("the tree was closed right after the failed call and reopened: {e}"));
+                            v.tags.push("C20".into());
+                            violation = Some(v);
+                        }
                         Ok(got) => {
                             let ok = same(&got, &want_before) || same(&got, &want_mid) || same(&got, &want_after) || matches!(op, Op::Ingest { .. } | Op::Clear | Op::DropRange { .. });
                             if !ok {
